@@ -82,4 +82,9 @@ CLAIMED['C05'] = ('DESIGN.md 4/C05', 'Every mutator applied to an object built f
     'array and the object are compared element-term by element-term before/after (in-place writes on symbolic arrays are '
     'visible whatever the values), values/npts/time invariants after each operation; 40 array-level analysis functions '
     'shown to leave their symbolic inputs untouched and to repeat their result on every explored path.')
+CLAIMED['C04'] = ('DESIGN.md 4/C04', 'One-step inductive check over the observational cache state: for 24 (quick) / all 128 (thorough) '
+    'combinations of derived quantities read since the last change x every operation of the alphabet (17 mutators, 9 '
+    'settings changes) x all 13 reads, on a symbolic 8-sample record, every read of the used object is compared term by '
+    'term with a freshly constructed object holding the same values, dt and settings (identical terms, otherwise a z3 '
+    'query); reads are re-read for idempotence / non-interference.')
 NOT_APPLICABLE = {}
